@@ -88,6 +88,12 @@ def run_single(key):
         # every slice strongly concentrated around its own direction / point (spread 1e-4): the slices have nearly
         # (not exactly) equal second-order statistics up to a rotation, e.g. nearly equal scatter eigenvalues
         y = y[..., :1, :] + 1e-4 * y
+    elif key['short'] == 'graded':
+        # every slice concentrated around its own direction with another spread (0.2, 0.13, 0.09, ...): the
+        # concentrations of the slices range from about 50 to beyond the upper bound of the trainers
+        spread = (0.2 / 1.5 ** np.arange(int(np.prod(lead)))).reshape(lead)
+        proto = y[..., :1, :] / np.linalg.norm(y[..., :1, :], axis=-1, keepdims=True)
+        y = proto + spread[..., None, None] * y / np.sqrt(D)
     elif key['short'] and int(np.prod(lead)) > 1:
         # last slice: isotropic inside a (D-1)-dimensional subspace (one eigenvalue reaches the floor,
         # moderate maximum); first slice: strongly concentrated (large maximal eigenvalue)
@@ -394,7 +400,7 @@ def subchecks(tier, seed):
                         opts = ((1, 'eigenvalue'), (5, 'eigenvalue'), (5, 'trace'), (2, False)) \
                             if fam == 'cacg' else ('default',)
                         for opt in opts:
-                            for short in ((False, True, 'tight') if fam == 'cacg' else (False, 'tight')):
+                            for short in ((False, True, 'tight', 'graded') if fam == 'cacg' else (False, 'tight', 'graded')):
                                 if D == 3 and len(lead) == 3 and not thorough:
                                     continue
                                 yield (fam, lead, D, N, salk, opt, short, seed)
